@@ -348,7 +348,7 @@ func zz4LatestHarness(tampered bool) {
 	nb, nu := 3, 3
 	if tampered {
 		// quick tier: before by id only, until by number only
-		nb, nu = verif.Bound("tampered.before.choices", 2, 3), verif.Bound("tampered.until.choices", 2, 3)
+		nb, nu = verif.Bound("tampered.before.choices", 2, 2), verif.Bound("tampered.until.choices", 2, 2)
 	}
 	switch verif.Concrete(verif.Choice("opt.before", nb)) {
 	case 1:
